@@ -231,8 +231,22 @@ FamRoundtrip ==
   { [One(Plain(n, t, mc[1], mc[2], IF mc[1] = 1 /\ t % 2 = 0 THEN 1 ELSE 0), "RecoverAndVerify") EXCEPT !.viabytes = TRUE] :
       n \in AllN, t \in 1..6, mc \in (IF Quick THEN {<<1,1>>, <<2,2>>, <<4,8>>, <<8,8>>} ELSE MCap(16, 16)) }
 
+(***************************************************************************************************)
+(* hostile (C16): proof shapes that do not fit the statement, in every mode                           *)
+(***************************************************************************************************)
+FamHostile ==
+  LET HB == { <<2, 1, 1, 1, 1>>, <<8, 2, 2, 4, 0>>, <<64, 6, 1, 1, 1>>, <<64, 1, 8, 8, 0>> }
+      HM(b) == { [kind |-> "rounds", slot |-> "none", j |-> d, how |-> "none"] :
+                    d \in {-2, -1, 1, 2, 3, 5, 25, 26, 30, 31, 32, 57, 58, 59, 60, 61, 62, 63, 64, 65, 130, 199} }
+          \cup { [kind |-> "tag", slot |-> "none", j |-> tt, how |-> "none"] : tt \in ((0..8) \cup {128, 255}) \ {b[2]} }
+          \cup { [kind |-> "point", slot |-> sl, j |-> 0, how |-> h] : sl \in {"A", "A1", "B"}, h \in {"identity", "undecodable"} }
+          \cup { [kind |-> "point", slot |-> sl, j |-> jj, how |-> h] : sl \in {"L", "R"}, jj \in {0, Log2(b[1] * b[3]) - 1}, h \in {"identity", "undecodable"} }
+          \cup { [kind |-> "bytes", slot |-> "none", j |-> 0, how |-> h] : h \in {"trailing1", "trailing32", "truncate1", "truncate32"} }
+  IN UNION { { One([BaseMember(b) EXCEPT !.mut = mu], mode) : mu \in HM(b), mode \in Modes } : b \in HB }
+
 Scenarios ==
   CASE Family = "complete" -> FamComplete
+    [] Family = "hostile"  -> FamHostile
     [] Family = "roundtrip" -> FamRoundtrip
     [] Family = "bind"     -> FamBind
     [] Family = "hedge"    -> FamHedge
